@@ -185,4 +185,11 @@ def rule_none(ctx: Ctx):
         rep.floor("C14.none", f"return paths of {eng.name}._trigger", n, 3)
 
 
-RULES = [rule_flow, rule_collect, rule_none]
+def rule_first(ctx: Ctx):
+    """C14.first: what the caller receives is the result of the first event its call caused to be processed."""
+    from . import c03
+
+    c03.rule_first(ctx, rule="C14.first")
+
+
+RULES = [rule_flow, rule_collect, rule_none, rule_first]
